@@ -314,7 +314,18 @@ class DatesWorld(World):
             ctor = "lshift"
         elif f in cal.REGULAR and step == 1 and r < 0.5:
             ctor = "ellipsis"
-        return {"op": "new_span", "out": [self._name("s")], "args": {"f": f, "a": a, "b": b, "step": step, "ctor": ctor}}
+        args = {"f": f, "a": a, "b": b, "step": step, "ctor": ctor}
+        recent = getattr(self, "_recent_span_args", None)
+        if recent is None:
+            recent = self._recent_span_args = []
+        if recent and rng.random() < 0.15:
+            # the very same constructor call as earlier in the run: it must build a new span, not hand out the old one
+            args = dict(rng.choice(recent))
+            self.probes["constructor_call_repeated"] += 1
+        else:
+            recent.append(dict(args))
+            del recent[:-4]
+        return {"op": "new_span", "out": [self._name("s")], "args": args}
 
     def _gen_drop(self, actor, rng):
         if len(self.spans) > 2 and rng.random() < 0.6:
